@@ -33,6 +33,8 @@ type bombShape struct {
 var c05Bombs = []bombShape{
 	{"RecL", "L", []int{4}, 1}, {"RecSet", "E", []int{4}, 1}, {"RecMV", "M", []int{5}, 5}, {"RecLL", "LL", []int{4, 9}, 1},
 	{"RecMix", "L", []int{4}, 1}, {"RecMix", "E", []int{4}, 1}, {"RecMix", "M", []int{5}, 5}, {"RecH", "L", []int{4}, 1},
+	// structs held by value all the way down: nothing on the path is a pointer
+	{"RecBV", "M", []int{5}, 5}, {"RecBV", "L", []int{4}, 1}, {"RecBV", "ML", []int{5, 14}, 9},
 }
 
 func buildBomb(bs bombShape, depth, pad int) []byte {
